@@ -47,6 +47,12 @@ theorem trans_C01_C02_C05_C08_C10_cycleBody_is_stepOp (c : Cfg) (a : Acc) (avail
       by_cases hc : c.allow ≤ a.consumed <;> by_cases hm : 0 < c.mb op.w <;> by_cases hf : c.mb op.w ≤ b.length + 1 <;>
       simp [stepOp, place, cutoff, isFull, cycleBody, cyIn, hge, hl, hb, hav, hlim, hc, hm, hf, hu, eC, eM, eF]
 
+/-- after a full batch the map entry of the watcher is `nil` but PRESENT (`batch == nil`, `ok == true`), which the model
+does not tell apart from an absent entry: the body does not either - with a nil batch `ok` is not even looked at -/
+theorem trans_C05_C10_cycleBody_nil_entry (i : CyIn) (h : i.bnil = true) (x : Bool) :
+    cycleBody { i with ok := x } = cycleBody i := by
+  simp [cycleBody, h]
+
 /-- v1: the same for the loop `Fill:` of /repo/batcher.go - the cut-off is `consumed > capacity` (the model's `ge = false`),
 there are no slots (`avail = true`; the model's slot flag has no meaning in v1), and the operation has already left
 the channel when the body runs (buffer call 2 on every path that is not the cut-off) -/
